@@ -52,7 +52,7 @@ def run(tier, replay=None):
         for k, v in (rep.get("counts") or {}).items():
             counts[k] = counts.get(k, 0) + v
         for v in rep.get("violations") or []:
-            viols.append({"key": "C08:%s:%s" % (v["entry"], v["class"]),
+            viols.append({"key": "C08:%s:%s%s" % (v["entry"], v["class"], ":" + v["id"] if v["id"].startswith("slow:") else ""),
                           "what": "%s on %s input %s: %s (%s)" % (v["kind"], entries_name(v["entry"]), v["src_q"][:160],
                                                                    v["text"][:200].replace("\n", " "), what),
                           "replay": {"case.json": json.dumps({"entry": v["entry"], "src_q": v["src_q"], "id": v["id"]}),
@@ -122,6 +122,7 @@ def run(tier, replay=None):
     groups = [("type depth %d" % n, lexcases.typedepth_cases(n)) for n in (3, 300, 32766, 32767, 32768, 65535, 65536, 70000)]
     groups += [("include graph " + c["id"], [c]) for c in lexcases.graph_cases()]
     groups += [("pipelines calling each other " + c["id"], [c]) for c in lexcases.recursion_cases()]
+    groups += [("time in proportion " + c["id"], [c]) for c in lexcases.slow_cases()]
     ngr = 0
     for label, cs in groups:
         lexcases.write(cs, os.path.join(wd, "g.ndjson"))
